@@ -18,9 +18,11 @@
      C12_sound_partial    sound along every ADMISSIBLE history (a syntactic condition, see below)
      C12_unchanged_kept   unchanged code keeps its cache across sessions
    This file contains only the property theorems; proofs are in Proofs/Memory*.v. *)
-From Coq Require Import List Bool Arith.
+From Coq Require Import List Bool Arith ZArith.
 Require Import JV.Base.PyPrelude JV.Model.MemoryCore JV.Model.MemoryTab.
 Require Import JV.Proofs.MemoryCore JV.Proofs.MemoryKept JV.Proofs.MemoryTheorems.
+Require Import JV.Model.MemoryCodeCheck JV.Proofs.MemoryCodeCheck.
+Local Close Scope Z_scope.   (* numerals are nat unless marked %Z *)
 Import ListNotations.
 
 (* F10: versions 1 and 2 of a same-named function live in their own files, both objects stay
@@ -55,7 +57,9 @@ Print Assumptions C12_sound_refuted_same_file.
      - its source file has not been overwritten by a Define of different text, and
      - no object of different text has been used since this object was last used
        (in particular: "a version is never called again after a different version of the same
-        name has been called"); first use is always allowed.
+        name has been called"); first use is always allowed.  This clause binds only callables
+       that can enter _FUNCTION_HASHES ([named C k = true]): for lambdas, partials and other
+       callables without a __name__ the first clause alone suffices (C12_unnamed_example).
    Any interleaving of definitions, wrappers, fresh processes, clears and evictions is allowed. *)
 Theorem C12_sound_partial :
   forall (call key_input digest binding kbinding value src : Type)
@@ -97,3 +101,88 @@ Example C12_admissible_example :
                         ODone; ODone; ODone; OHit (2, 0); ODone; ODone; OMiss (1, 0)].
 Proof. split; vm_compute; reflexivity. Qed.
 Print Assumptions C12_admissible_example.
+
+(* lambdas / partials never enter _FUNCTION_HASHES: the F10 history itself is admissible for them and every
+   call returns the value of its own text *)
+Example C12_unnamed_example :
+  let C := tab_cfg [0; 1; 2] [0; 1; 2] [false; false; false] in
+  admissible C f10_history = true /\
+  outcomes C f10_history = [ODone; ODone; ODone; ODone; OMiss (1, 0); OMiss (2, 0); OMiss (1, 0)].
+Proof. split; vm_compute; reflexivity. Qed.
+Print Assumptions C12_unnamed_example.
+
+(* ---------------------------------------------------------------------------------------------------------
+   The slow path of _check_previous_func_code as a decision procedure (Model/MemoryCodeCheck.v) over
+   (func_code.py as stored: header + text, or absent; current text, first line, source file known / existing /
+   doctest, lambda, "old text still at the old line of the source file").  [decide] returns the answer and the
+   JobLibCollisionWarnings; it is compared with the real method on generated stores (harness stage
+   "codecheck" of ./check C12). *)
+
+(* "same code" (return True) is answered exactly when the stored text EQUALS the current text -- whatever the
+   headers, first lines, file names or lambda-ness are.  (A whitespace-insensitive comparison falsifies this.) *)
+Theorem C12_check_same_iff_equal :
+  forall (src : Type) (src_eqb : src -> src -> bool), (forall a b, src_eqb a b = true <-> a = b) ->
+  forall (stored : option (stored_file src)) (c : current src),
+  fst (decide src_eqb stored c) = Same <-> exists f, stored = Some f /\ body f = cur_code c.
+Proof. intros src eqb H. exact (decide_same_iff eqb H). Qed.
+Print Assumptions C12_check_same_iff_equal.
+
+(* the function's cache directory is wiped exactly when a func_code.py exists whose text differs; a missing
+   func_code.py is written without wiping; warnings are only ever issued together with a wipe *)
+Theorem C12_check_clears_iff_differs :
+  forall (src : Type) (src_eqb : src -> src -> bool), (forall a b, src_eqb a b = true <-> a = b) ->
+  forall (stored : option (stored_file src)) (c : current src),
+  (snd (after src_eqb stored c) = false <-> exists f, stored = Some f /\ body f <> cur_code c) /\
+  (fst (decide src_eqb stored c) = FirstWrite <-> stored = None) /\
+  (snd (decide src_eqb stored c) <> [] -> snd (after src_eqb stored c) = false).
+Proof.
+  intros src eqb H stored c. split; [|split].
+  - rewrite (after_keeps_entries_iff eqb). exact (decide_changed_iff eqb H stored c).
+  - exact (decide_first_write_iff eqb stored c).
+  - intros W. apply (after_keeps_entries_iff eqb). exact (decide_warnings_only_when_changed eqb stored c W).
+Qed.
+Print Assumptions C12_check_clears_iff_differs.
+
+(* after any run func_code.py holds the current text, read back exactly by extract_first_line: the next run
+   answers "same" *)
+Theorem C12_check_idempotent :
+  forall (src : Type) (src_eqb : src -> src -> bool), (forall a b, src_eqb a b = true <-> a = b) ->
+  forall (stored : option (stored_file src)) (c : current src),
+  fst (decide src_eqb (fst (after src_eqb stored c)) c) = Same /\
+  extract_first_line (written c) = (cur_code c, cur_line c).
+Proof. intros src eqb H stored c. split; [exact (after_then_same eqb H stored c) | reflexivity]. Qed.
+Print Assumptions C12_check_idempotent.
+
+(* M4's check_code (Model/MemoryCore.v) is this decision procedure on its slow path, and ignores func_code.py
+   altogether on the in-memory fast path -- the root of F10 *)
+Theorem C12_check_code_refines :
+  forall (call key_input digest binding kbinding value src : Type)
+         (C : cfg call key_input digest binding kbinding value src)
+         (st : state call digest value src) k,
+  (mem_nat k (table st) = true -> check_code C st k = Some (true, st)) /\
+  (forall s st1, mem_nat k (table st) = false -> source_of C st k = Some (s, st1) ->
+     check_code C st k =
+       match fst (decide (src_eqb C) (stored_of (disk st1)) (cur_of s)) with
+       | Same => Some (true, st1)
+       | FirstWrite => Some (false, write_func_code C st1 k s (entries st1))
+       | Changed => Some (false, write_func_code C st1 k s [])
+       end).
+Proof.
+  intros ? ? ? ? ? ? ? C st k. split.
+  - exact (check_code_fast_ignores_disk C st k).
+  - intros s st1. exact (check_code_slow_is_decide C st k s st1).
+Qed.
+Print Assumptions C12_check_code_refines.
+
+(* non-vacuity of the decision procedure: all three answers and both warnings occur *)
+Example C12_decide_examples :
+  let f n s := Some {| hdr := Some (Some n); body := s |} in
+  let c s l lam := {| cur_code := s; cur_line := l; has_source_file := true; file_exists := true;
+                      is_doctest := false; is_lambda := lam; disk_has_old := true |} in
+  decide Nat.eqb None (c 7 3%Z false) = (FirstWrite, []) /\
+  decide Nat.eqb (f 3%Z 7) (c 7 9%Z false) = (Same, []) /\
+  decide Nat.eqb (f 3%Z 6) (c 7 3%Z false) = (Changed, []) /\
+  decide Nat.eqb (f 3%Z 6) (c 7 9%Z true) = (Changed, [CannotDetect; PossibleCollision]) /\
+  decide Nat.eqb (Some {| hdr := Some None; body := 6 |}) (c 7 (-1)%Z false) = (Changed, [CannotDetect]).
+Proof. repeat split. Qed.
+Print Assumptions C12_decide_examples.
